@@ -51,21 +51,30 @@ ExpectedSweep(e, c) ==
       base == IF same THEN (IF e.ccw THEN TWOPI5 ELSE -TWOPI5)
               ELSE IF e.ccw THEN (IF d <= 0 THEN d + TWOPI5 ELSE d) ELSE (IF d >= 0 THEN d - TWOPI5 ELSE d)
   IN base + (IF e.ccw THEN TWOPI5 ELSE -TWOPI5) * (e.turns - 1)
-\* observed sweep: sum of the step angles about c (vertices closer than 2 resolutions to c are skipped)
+\* observed sweep: sum of the step angles about c.  On shapes whose radius varies (helix, spiral) vertices closer than 2
+\* resolutions to c are skipped: their angle is ill-defined.  `res` = 0 switches the skipping off (constant-radius shapes,
+\* whose radius is checked by RadOK anyway -- needed for loops smaller than the resolution, seed C10j).
 Steps(V, c, res) ==
   [i \in 1..(Len(V) - 1) |->
-     IF Dist2(V[i], c) >= 4 * res * res /\ Dist2(V[i + 1], c) >= 4 * res * res THEN StepAngle(c, V[i], V[i + 1]) ELSE 0]
+     IF Dist2(V[i], c) >= 4 * res * res /\ Dist2(V[i + 1], c) >= 4 * res * res /\ Dist2(V[i], c) > 0 /\ Dist2(V[i + 1], c) > 0
+       THEN StepAngle(c, V[i], V[i + 1]) ELSE 0]
+SkipRes(e) == IF e.shape \in Circular THEN 0 ELSE e.res
 SumSeq(s) == FoldLeft(LAMBDA a, b : a + b, 0, s)
 \* tolerance: CORDIC + rounding of every vertex + the cubic error of asin ~ x
 SweepTol(e, V, c) == 3000 + 4 * Len(V) + AbsI(ExpectedSweep(e, c)) \div 50
+\* a full turn passes the far side of its circle: some vertex is at least r * sqrt(2) away from the start.  Judged on every
+\* circle, also on loops so small that they have three or four vertices and steps of 140 degrees, where the angle sums
+\* below (built for small steps) say nothing (seed C10j: such a loop collapsed to a step out and back)
+FarSide(e, V) == e.shape = "circle" => \E i \in DOMAIN V : Dist2(V[i], V[1]) + 8 * e.r + 16 >= 2 * e.r * e.r
 C10_Sweep(e, V) ==
-  (e.shape \in Angular /\ e.far) =>
+  /\ FarSide(e, V)
+  /\ (e.shape \in Angular /\ e.far) =>
      \E c \in e.centers :
         /\ (e.shape \in Circular => \A i \in DOMAIN V : RadOK(V[i], c, e.r, 3))
-        /\ AbsI(SumSeq(Steps(V, c, e.res)) - ExpectedSweep(e, c)) <= SweepTol(e, V, c)
+        /\ AbsI(SumSeq(Steps(V, c, SkipRes(e))) - ExpectedSweep(e, c)) <= SweepTol(e, V, c)
         \* arc_radius: a positive radius selects the minor arc, a negative one the major arc
-        /\ e.minor = "minor" => AbsI(SumSeq(Steps(V, c, e.res))) <= PI5 + SweepTol(e, V, c)
-        /\ e.minor = "major" => AbsI(SumSeq(Steps(V, c, e.res))) >= PI5 - SweepTol(e, V, c)
+        /\ e.minor = "minor" => AbsI(SumSeq(Steps(V, c, SkipRes(e)))) <= PI5 + SweepTol(e, V, c)
+        /\ e.minor = "major" => AbsI(SumSeq(Steps(V, c, SkipRes(e)))) >= PI5 - SweepTol(e, V, c)
 \* advances monotonically in the selected direction
 C10_Direction(e, V) ==
   (e.shape \in Angular /\ e.far) =>
@@ -79,7 +88,7 @@ PartialSums(s) == FoldLeft(LAMBDA acc, b : Append(acc, Last(acc) + b), <<0>>, s)
 C10_Linear(e, V) ==
   (e.shape \in Angular /\ e.far) =>
      \E c \in e.centers :
-        LET th == PartialSums(Steps(V, c, e.res))            \* th[i] = angle reached at V[i], 10^-5 rad
+        LET th == PartialSums(Steps(V, c, SkipRes(e)))       \* th[i] = angle reached at V[i], 10^-5 rad
             Th == Last(th) \div 100                           \* 10^-3 rad
             H  == Last(V)[3] - V[1][3]
             R0 == ISqrt(Dist2(V[1], c))
